@@ -9,6 +9,9 @@ func init() {
 	reg.Register("ps-cells", func(a reg.Args) (interface{}, error) {
 		return ps.RunCells(a.In, a.Out, a.Seed, a.Sample, a.Reps, a.Workers, a.Base, a.NoShuffle)
 	})
+	reg.Register("ps-pairs", func(a reg.Args) (interface{}, error) {
+		return ps.RunPairs(a.Out, a.Seed, a.N, a.Workers)
+	})
 	reg.Register("ps-hist", func(a reg.Args) (interface{}, error) {
 		return ps.RunHistories(a.Out, a.Seed, a.N, a.Steps, a.Workers, a.Only)
 	})
